@@ -520,15 +520,15 @@ impl TaskEmitter {
         };
         *seq += 1;
 
-        let _ = self.sender.send(event.clone());
-        #[cfg(rip_verif)]
-        rip_kernel::verif::point("emit.published", || {
-            serde_json::json!({"stream": event.stream_id(), "sk": event.stream_kind(), "seq": event.seq})
-        });
         let mut guard = self.events.lock().await;
         guard.push(event.clone());
         #[cfg(rip_verif)]
         rip_kernel::verif::point("emit.recorded", || {
+            serde_json::json!({"stream": event.stream_id(), "sk": event.stream_kind(), "seq": event.seq})
+        });
+        let _ = self.sender.send(event.clone());
+        #[cfg(rip_verif)]
+        rip_kernel::verif::point("emit.published", || {
             serde_json::json!({"stream": event.stream_id(), "sk": event.stream_kind(), "seq": event.seq})
         });
         let _ = self.event_log.append(&event);
